@@ -114,7 +114,7 @@ def mk_client(maxre):
         from vf import stack
         from vf.simloop import SimLoop
         from aiocoap.message import Message
-        from aiocoap.numbers.types import CON, ACK, RST
+        from aiocoap.numbers.types import CON, ACK, RST, NON
         from aiocoap.numbers.codes import GET, EMPTY
         from aiocoap import error
         stack.configure(ack_timeout=2000, ack_random_factor=2, max_retransmit=maxre)
@@ -131,6 +131,12 @@ def mk_client(maxre):
                 done = []
                 rq.response.add_done_callback(lambda f: done.append(loop.time()))
                 loop.run_ready()
+                # a later, unrelated request to another endpoint (non-confirmable: no timers of its own) must not be affected
+                other = Message(code=GET, uri_path=["y"], _mtype=NON)
+                other.remote = S.remote(stack.R2)
+                rq_other = S.ctx.request(other, handle_blockwise=False)
+                loop.run_ready()
+                S.tr.sent[:] = [x for x in S.tr.sent if x[1][0] != stack.R2[0]]
                 assert len(S.tr.sent) == 1
                 first = Message.decode(S.tr.sent[0][0])
                 loop.advance_to(t_reply)
@@ -162,10 +168,58 @@ def mk_client(maxre):
                     exc = rq.response.exception()
                     assert isinstance(exc, error.ConRetransmitsExceeded) and isinstance(exc, error.TimeoutError) \
                         and isinstance(exc, error.NetworkError)
+                assert not rq_other.response.done(), "an unrelated request to another endpoint was completed / failed"
                 assert loop.exceptions == []
             assert not reach, "reach"
         return h
     return make
+
+
+def mk_blockwise_tuning(reach):
+    """the tuning attached to a request also governs the block-wise sub-requests the library makes from it"""
+    from vf import stack
+    from vf.simloop import SimLoop
+    from aiocoap.message import Message
+    from aiocoap.numbers.types import CON, ACK
+    from aiocoap.numbers.codes import PUT, GET, CONTENT, CONTINUE
+    from aiocoap.numbers.constants import TransportTuning
+    from aiocoap import error
+    stack.configure(ack_timeout=2000, ack_random_factor=1, max_retransmit=2)
+    import aiocoap.messagemanager as mmod
+
+    def h(at: int, mr: int, phase: int) -> None:
+        assert 100 <= at <= 1500 and 0 <= mr <= 1 and 0 <= phase <= 1
+        mmod.random.u = None
+
+        class TT(TransportTuning):
+            ACK_TIMEOUT = at
+            ACK_RANDOM_FACTOR = 1
+            MAX_RETRANSMIT = mr
+        with SimLoop() as loop:
+            S = stack.StackS(loop)
+            if phase == 0:
+                req = Message(code=PUT, uri_path=["big"], payload=b"z" * 2500, transport_tuning=TT())      # Block1: first block
+            else:
+                req = Message(code=GET, uri_path=["big"], transport_tuning=TT())                           # Block2: follow-up request
+            req.remote = S.remote(stack.R0)
+            rq = S.ctx.request(req)
+            loop.run_ready()
+            if phase == 1:
+                first = Message.decode(S.tr.sent[0][0])
+                S.deliver(Message(code=CONTENT, _mtype=ACK, _mid=first.mid, _token=first.token, payload=b"p" * 1024, block2=(0, True, 6)).encode(), stack.R0)
+                n0 = 1
+            else:
+                n0 = 0
+            t_first = S.tr.sent[n0][2]
+            loop.drain()
+            mine = S.tr.sent[n0:]
+            # the (silent) peer never acknowledges: copies and give-up follow the attached tuning, not the defaults
+            assert len(mine) == 1 + mr, "number of transmissions does not follow the attached MAX_RETRANSMIT"
+            assert [t - t_first for (d, a, t) in mine] == [at * (2 ** i - 1) for i in range(1 + mr)], "spacing does not follow the attached ACK_TIMEOUT"
+            assert rq.response.done() and isinstance(rq.response.exception(), error.ConRetransmitsExceeded)
+            assert loop.exceptions == []
+        assert not reach, "reach"
+    return h
 
 
 def obligations(tier):
@@ -194,4 +248,8 @@ def obligations(tier):
             symbolic={"t0": "[2000,4000]", "t_reply": "[0, 520000]", "kind": "as above"},
             concrete={"MAX_RETRANSMIT": k, "ACK_TIMEOUT": 2000, "ACK_RANDOM_FACTOR": 2},
             stubs=["random.uniform -> explicit draw", "SimLoop", "FakeDatagramTransport"]))
+    obs.append(Obligation("blockwise-subrequests-keep-tuning", mk_blockwise_tuning, 200 if tier == "quick" else 900,
+                          functions=FUNCS + ["protocol.BlockwiseRequest._run/_complete_by_requesting_block2", "message.Message.copy/_extract_block/_generate_next_block2_request"],
+                          symbolic={"attached ACK_TIMEOUT": "[100,1500]", "attached MAX_RETRANSMIT": "0..1", "phase": "Block1 first block / Block2 follow-up request"},
+                          concrete={"library defaults": "ACK_TIMEOUT 2000, MAX_RETRANSMIT 2"}))
     return obs
